@@ -18,8 +18,9 @@
 //!
 //! output fields:
 //!   status  code  accepted(0/1)  op  nsinks  nbytes  nrecords  hits  corrsig(0/1)
-//!   secret(hex) ak(hex) dbg_secretkey(hex) json_secretkey(hex) dbg_credentials(opt hex) nredacted
+//!   secret(hex) ak(hex) dbg_secretkey(hex) json_secretkey(hex) dbg_credentials(opt hex) nredacted trace
 //! nredacted = number of captured trace records that contain the `{:?}` rendering of a `SecretKey`
+//! trace = the captured events that are sites of the emission model, in order: `LEVEL:site[+field…]` joined by `,`
 //! hits = `-` or `,`-joined `sink/form` names (sink ∈ response, log, debug:S3Request, debug:Credentials, …)
 //! corrsig = the valid signature of a request that was REFUSED, which the client did NOT send, occurs in the captured
 //!           log (observation, not a failure of C16: the signature is not the key)
@@ -854,6 +855,34 @@ fn evaluate(f: &[&str]) -> Vec<String> {
     let dbg_sk = format!("{sk:?}");
     let json_sk = serde_json::to_string(&sk).unwrap_or_default();
     let dc = dbg_cred.lock().unwrap().clone();
+    // projection of the captured records onto the sites of the emission model (`S3V.Secrets.Site`), in order
+    let mut trace: Vec<String> = Vec::new();
+    for r in records().lock().unwrap().iter() {
+        let Some(rest) = r.strip_prefix("EVENT ") else { continue };
+        let level = rest.split(' ').next().unwrap_or("?");
+        let has = |t: &str| r.contains(&format!(" message={t} "));
+        let site = if has("signature mismatch") {
+            let mut fields = String::new();
+            for f in ["signature", "expected", "string_to_sign"] {
+                if r.contains(&format!(" {f}=")) {
+                    fields.push('+');
+                    fields.push_str(f);
+                }
+            }
+            format!("signatureMismatch{fields}")
+        } else if has("checked signature v2") || has("checked signature v4") {
+            "checkedSignature".to_owned()
+        } else if has("sig_v2 header_auth") {
+            format!("v2StringToSign{}", if r.contains(" string_to_sign=") { "+string_to_sign" } else { "" })
+        } else if has("failed to prepare") {
+            "failedToPrepare".to_owned()
+        } else if level == "ERROR" && rest.contains(" s3s::ops ") && r.contains(" error=") {
+            "prepareErr".to_owned()
+        } else {
+            continue;
+        };
+        trace.push(format!("{level}:{site}"));
+    }
     // trace records that carry a (redacted) SecretKey: shows that the capture reaches the fields where a key would be
     let nredacted = records().lock().unwrap().iter().filter(|r| find(r.as_bytes(), dbg_sk.as_bytes())).count();
     vec![
@@ -872,6 +901,7 @@ fn evaluate(f: &[&str]) -> Vec<String> {
         hex(json_sk.as_bytes()),
         opt_hex(dc.as_deref().map(str::as_bytes)),
         nredacted.to_string(),
+        if trace.is_empty() { "-".to_owned() } else { trace.join(",") },
     ]
 }
 
